@@ -66,10 +66,10 @@ def ref_pcapng_payloads(blob):
 HEX_WS = b" \t\n\r\x0b\x0c"
 
 
-def write_hex(data, rng, noise=True):
+def write_hex(data, rng, noise=True, style=None):
     """hex rendering with seeded layout noise: case, whitespace between and inside pairs"""
     out = bytearray()
-    style = rng.choice(("plain", "spaced", "lines", "noisy")) if noise else "plain"
+    style = style or (rng.choice(("plain", "spaced", "lines", "noisy")) if noise else "plain")
     upper = rng.random() < 0.5
     mixed = rng.random() < 0.2
     for i, b in enumerate(data):
